@@ -279,6 +279,10 @@ Definition tok_big (t : tok) : bool :=
   | TCCFreq v => zbig v
   | TDecresc _ v1 v2 => zbig v1 || zbig v2
   | TTiming v | TOctave v | TQLen v | TVelocity v _ => zbig v      (* the plain values read by the same readers *)
+  | TPort v => zbig v
+  | TTempoChange a rest => zbig a || existsb zbig rest
+  | TSysEx _ args | TSysExCommand _ args | TDeviceNumber args => existsb zbig args
+  | TGSEffect _ a rest => zbig a || existsb zbig rest
   | _ => false
   end.
 Definition otok_big (ot : option tok) : bool := match ot with Some t => tok_big t | None => false end.
@@ -484,8 +488,9 @@ Fixpoint sysfunc_lookup (name : list ch) (rows : list (list Z * (list Z * (Z * (
 (* read_args_tokens for a macro call: every argument is a {string} or an integer literal *)
 Definition read_macro_arg (tb : Z) (s : list ch) (ln : Z) : res (option marg * list ch * Z) :=
   let '(s1, ln1) := skip_space s ln in
-  if eq_char s1 123 then
-    let '(body, s2, ln2) := get_token_nest s1 ln1 123 125 in
+  if eq_char s1 123 || eq_char s1 34 then
+    (* read_value: '{' => get_token_nest('{', '}') ; '"' => next(); get_token_ch('"') *)
+    let '(body, s2, ln2) := if eq_char s1 123 then get_token_nest s1 ln1 123 125 else get_token_ch 34 (tl s1) ln1 in
     match s2 with
     | [] => Ok (Some (MStr body), s2, ln2)
     | _ => let '(s3, ln3) := skip_space s2 ln2 in
@@ -719,6 +724,68 @@ Definition read_def_str (ls : lexstate) (s : list ch) (ln : Z) : res rd_out :=
         else Ok (Some (TDefStr name None), s3, ln3, vars_insert ls name (VStr [] 0))
   end.
 
+(* read_sysex: `SysEx[$][=] v, v, {v, v}, v`: with '$' every value is read by get_hex(0, true); without it a value starts
+   with a digit or '$' (get_int), an upper-case word is a variable (outside the model), anything else adds no value.
+   '{' opens a checksum group (the value -1, and value_i becomes 1), '}' after a value closes it (the value -2). *)
+(* `if cur.eq_char(c) { cur.next(); ... }`: whether the character was there, and the cursor after it *)
+Definition skip_char (c : ch) (s : list ch) : bool * list ch := if eq_char s c then (true, tl s) else (false, s).
+Definition read_sysex_value (hex : bool) (s : list ch) (ln : Z) : res (list Z * list ch * Z) :=
+  if hex then let '(v, s1) := get_hex 0 true s in Ok ([v], s1, ln)
+  else
+    let c := peek0 s in
+    if is_digit c || (c =? c_DOLLAR) then let '(v, s1) := get_int 0 s in Ok ([v], s1, ln)
+    else if is_upper c || (c =? 95) then Unsupported U_VAR
+    else Ok ([], s, ln).
+Fixpoint read_sysex_loop (fuel : nat) (hex : bool) (s : list ch) (ln : Z) (flag : Z) : res (list Z * Z * list ch * Z) :=
+  match fuel with
+  | O => OutOfFuel
+  | S f =>
+      let '(s1, ln1) := skip_space s ln in
+      let '(opened, s2) := skip_char 123 s1 in
+      do r <- read_sysex_value hex s2 ln1;
+      let '(vs, s3, ln3) := r in
+      let '(s4, ln4) := skip_space s3 ln3 in
+      let '(closed, s5) := skip_char 125 s4 in
+      let here := (if opened then [-1] else []) ++ vs ++ (if closed then [-2] else []) in
+      let flag1 := if opened then 1 else flag in
+      if eq_char s5 44 then
+        do r2 <- read_sysex_loop f hex (tl s5) ln4 flag1;
+        let '(more, flag2, s6, ln6) := r2 in Ok (here ++ more, flag2, s6, ln6)
+      else Ok (here, flag1, s5, ln4)
+  end.
+Definition read_sysex (s : list ch) (ln : Z) : res (tok * list ch * Z) :=
+  let '(hex, s1) := skip_char c_DOLLAR s in
+  let '(_, s2) := skip_char 61 s1 in
+  do r <- read_sysex_loop (S (length s2)) hex s2 ln 0;
+  let '(vs, flag, s3, ln3) := r in Ok (TSysEx flag vs, s3, ln3).
+
+(* read_upper_command for the argument types 'I' / 'A': skip blanks, an optional '=', read_args_tokens; the values as
+   exec_args(..)[i].to_i() gives them (0 for an argument without a value) *)
+Definition read_int_args (ls : lexstate) (s : list ch) (ln : Z) : res (list Z * list ch * Z * lexstate) :=
+  let '(s2, ln2) := skip_space s ln in
+  let s3 := if eq_char s2 61 then tl s2 else s2 in
+  do ra <- read_args_tokens ls s3 ln2;
+  let '(vs, s4, ln4, ls') := ra in Ok (map oz vs, s4, ln4, ls').
+(* the rows whose arguments are integers, for both argument types *)
+Definition read_int_command (ls : lexstate) (ttype : list ch) (tag1 : Z) (s : list ch) (ln : Z) : res rd_out :=
+  if list_eqb ttype (zs "SysexReset") then
+    (* the arguments are read and never evaluated *)
+    do ra <- read_int_args ls s ln; let '(_, s4, ln4, ls') := ra in Ok (Some (TSysexReset tag1), s4, ln4, ls')
+  else if list_eqb ttype (zs "SysExCommand") then
+    do ra <- read_int_args ls s ln; let '(args, s4, ln4, ls') := ra in Ok (Some (TSysExCommand tag1 args), s4, ln4, ls')
+  else if list_eqb ttype (zs "GSEffect") then
+    do ra <- read_int_args ls s ln; let '(args, s4, ln4, ls') := ra in
+    match args with
+    | a :: rest => Ok (Some (TGSEffect tag1 a rest), s4, ln4, ls')
+    | [] => Unsupported U_UPPER          (* (read_args_tokens yields at least one argument) *)
+    end
+  else if list_eqb ttype (zs "DeviceNumber") then
+    do ra <- read_int_args ls s ln; let '(args, s4, ln4, ls') := ra in Ok (Some (TDeviceNumber args), s4, ln4, ls')
+  else if list_eqb ttype (zs "Unimplemented") then
+    (* TokenType::Unimplemented => {}: the arguments are read, nothing is executed *)
+    do ra <- read_int_args ls s ln; let '(_, s4, ln4, ls') := ra in Ok (None, s4, ln4, ls')
+  else Unsupported U_UPPER.
+
 (* the commands of read_upper_command this extension adds, by token type (and argument type) of the table row;
    anything else stays outside the model *)
 Definition read_ext_command_raw (ls : lexstate) (ttype : list ch) (argt tag1 tag2 : Z) (s : list ch) (ln : Z) : res rd_out :=
@@ -731,7 +798,16 @@ Definition read_ext_command_raw (ls : lexstate) (ttype : list ch) (argt tag1 tag
       let '(vs, s4, ln4, ls') := ra in
       let args := map oz vs in
       Ok (Some (if list_eqb ttype (zs "Voice") then TVoice args else TRpnDirect (list_eqb ttype (zs "NRPN")) args), s4, ln4, ls')
-    else Unsupported U_UPPER
+    else if list_eqb ttype (zs "TempoChange") then
+      let '(s2, ln2) := skip_space s ln in
+      let s3 := if eq_char s2 61 then tl s2 else s2 in
+      do ra <- read_args_tokens ls s3 ln2;
+      let '(vs, s4, ln4, ls') := ra in
+      match map oz vs with
+      | a :: rest => Ok (Some (TTempoChange a rest), s4, ln4, ls')
+      | [] => Unsupported U_UPPER          (* (read_args_tokens yields at least one argument) *)
+      end
+    else read_int_command ls ttype tag1 s ln
   else if argt =? 42 then
     if list_eqb ttype (zs "ControlChange") then read_cc ls true s ln
     else if list_eqb ttype (zs "ControlChangeCommand") then read_command_cc ls tag1 s ln
@@ -745,6 +821,32 @@ Definition read_ext_command_raw (ls : lexstate) (ttype : list ch) (argt tag1 tag
       do r <- read_decres tag1 (lx_timebase ls) s ln; let '(t, s1, ln1) := r in Ok (Some t, s1, ln1, ls)
     else if list_eqb ttype (zs "Play") then read_play ls s ln
     else if list_eqb ttype (zs "DefStr") then read_def_str ls s ln
+    else if list_eqb ttype (zs "SysEx") then
+      do r <- read_sysex s ln; let '(t, s1, ln1) := r in Ok (Some t, s1, ln1, ls)
+    else Unsupported U_UPPER
+  else if argt =? 73 then
+    (* 'I': skip blanks, an optional '=', read_args_tokens; exec_args(..)[0].to_i() *)
+    if list_eqb ttype (zs "Port") then
+      let '(s2, ln2) := skip_space s ln in
+      let s3 := if eq_char s2 61 then tl s2 else s2 in
+      do ra <- read_args_tokens ls s3 ln2;
+      let '(vs, s4, ln4, ls') := ra in
+      Ok (Some (TPort (oz (hd None vs))), s4, ln4, ls')
+    else read_int_command ls ttype tag1 s ln
+  else if argt =? 83 then
+    (* 'S': skip blanks, an optional '=', read_args_tokens; the arguments may be strings *)
+    if list_eqb ttype (zs "MetaText") then
+      let '(s2, ln2) := skip_space s ln in
+      let s3 := if eq_char s2 61 then tl s2 else s2 in
+      do ra <- read_macro_args ls s3 ln2;
+      let '(vs, s4, ln4, ls') := ra in
+      Ok (Some (TMetaText tag1 (hd None vs)), s4, ln4, ls')
+    else if list_eqb ttype (zs "SoundType") then
+      (* TokenType::SoundType => {}: the arguments are read, nothing is executed *)
+      let '(s2, ln2) := skip_space s ln in
+      let s3 := if eq_char s2 61 then tl s2 else s2 in
+      do ra <- read_macro_args ls s3 ln2;
+      let '(_, s4, ln4, ls') := ra in Ok (None, s4, ln4, ls')
     else Unsupported U_UPPER
   else Unsupported U_UPPER.
 Definition read_ext_command (ls : lexstate) (ttype : list ch) (argt tag1 tag2 : Z) (s : list ch) (ln : Z) : res rd_out :=
